@@ -25,7 +25,7 @@ class Sys:
     pass
 
 
-def build(repo, it, st, use_ctl, obliq_on, sync=False):
+def build(repo, it, st, use_ctl, obliq_on, sync=False, ctl_law='linear_simple'):
     """symbolic object graph: orbit (PhysicsOrbit) with [host, world]; world (TidalWorld) with GlobalApproxTides"""
     mw = repo.by_path('TidalPy/structures/world_types/tidal.py'); mo = repo.by_path('TidalPy/structures/orbit/physics.py'); mt = repo.by_path('TidalPy/tides/methods/global_approx.py')
     mm = repo.by_path('TidalPy/tides/modes/mode_manipulation.py')
@@ -41,10 +41,10 @@ def build(repo, it, st, use_ctl, obliq_on, sync=False):
         '_global_love_by_orderl': None, '_need_to_collapse_modes': False, '_new_tidal_frequencies': False, '_eccentricity_truncation_lvl': 2, '_max_tidal_order_lvl': 2, '_use_obliquity_tides': obliq_on,
         '_multiply_modes_by_sign': True, '_eccentricity_results': None, '_obliquity_results': None, 'calculate_modes_func': fm[0], 'collapse_modes_func': fm[1], 'eccentricity_func': fm[2], 'obliquity_func': fm[3],
         '_tidal_inputs': None, '_ctl_complex_love_by_unique_freq': None, '_cpl_complex_love_by_unique_freq': None, '_use_ctl': use_ctl, '_ctl_calc_method': None, '_ctl_calc_input_getter': None, 'model': 'global_approx'})
-    if use_ctl:
-        mc = repo.by_path('TidalPy/tides/ctl_funcs/ctl_funcs.py')
-        s.tides.attrs['_ctl_calc_method'] = FuncRef(mc, need_func(mc, 'linear_dt'))
-        s.tides.attrs['_ctl_calc_input_getter'] = (lambda t=s.tides: (t.attrs['_fixed_dt'],))
+    # the configuration-dependent part of the state (the CTL law and the getter of its inputs, whatever else the class derives from its configuration) is set up by the
+    # class's own reinit, not by this harness
+    s.tides.attrs['config'] = {'use_ctl': use_ctl, 'fixed_q': st['Q'], 'static_k2': st['k2'], 'fixed_dt': st['dt'], 'ctl_calc_method': ctl_law, 'eccentricity_truncation_lvl': 2,
+                               'max_tidal_order_l': 2, 'obliquity_tides_on': obliq_on, 'multiply_modes_by_sign': True}
     s.world = Obj(cls=Wc, name='world', attrs={
         '_spin_frequency': (None if sync else st['spin']), '_spin_period': None, '_obliquity': st['obl'], '_tides': s.tides, '_is_spin_sync': sync, '_tides_on': True, '_force_spin_sync': sync, 'mass': st['M_world'], 'moi': st['C'],
         'radius': st['R'], 'tidal_scale': st['tscale'], 'density_bulk': st['rho'], 'gravity_surface': st['g'], 'name': 'world', 'world_class': 'simple_tidal', '_time': None, '_spin_time_derivative': None,
@@ -57,6 +57,7 @@ def build(repo, it, st, use_ctl, obliq_on, sync=False):
     s.world.attrs['orbit'] = s.orbit
     for o in (s.tides, s.world, s.orbit):
         constructor_defaults(it, o)
+    call(it, s.tides, 'reinit', initial_init=True)
     return s
 
 
@@ -315,9 +316,9 @@ def run(chk):
     mt = repo.by_path('TidalPy/tides/methods/global_approx.py')
     where_t = mt.rel()
     nseq = 0
-    for use_ctl, sync in ((False, False), (True, False), (False, True)):
-        for obliq_on in ((True,) if chk.tier == 'quick' else (True, False)):
-            model = ('CTL' if use_ctl else 'CPL') + (', obliquity tides on' if obliq_on else ', obliquity tides off') + (', spin forced synchronous' if sync else '')
+    for use_ctl, sync, ctl_law in ((False, False, 'linear_simple'), (True, False, 'linear_simple'), (False, True, 'linear_simple'), (True, False, 'linear_simple_with_q')):
+        for obliq_on in ((True,) if chk.tier == 'quick' or ctl_law != 'linear_simple' else (True, False)):
+            model = ('CTL' if use_ctl else 'CPL') + (' (law linear_simple_with_q: inputs dt and Q)' if ctl_law != 'linear_simple' else '') + (', obliquity tides on' if obliq_on else ', obliquity tides off') + (', spin forced synchronous' if sync else '')
             singles = [m_ for m_ in MUTATORS if m_ not in DEFERRED and m_ not in RESEND]
             if sync:
                 # the spin follows the mean motion: it is not set from outside
@@ -382,7 +383,7 @@ def run(chk):
                     stb = {k_: (hand(f'initial {k_}', v_) if k_ in ('Q', 'dt', 'spin', 'obl', 'e', 'a') else v_) for k_, v_ in st0.items()}
                     if seq and seq[0].startswith('cold:'):
                         stb[{'spin': 'spin', 'e': 'e'}[seq[0][5:]]] = None          # not known yet when the world joins the orbit
-                    s = build(repo, it, stb, use_ctl, obliq_on, sync)
+                    s = build(repo, it, stb, use_ctl, obliq_on, sync, ctl_law)
                     full_init(it, s)
                     call(it, s.world, 'orbit_spin_changed', orbital_freq_changed=True, spin_freq_changed=True, eccentricity_changed=True, obliquity_changed=True)
                     sent = {}
@@ -433,7 +434,7 @@ def run(chk):
                         final[key] = X.atom(f'{key}{i + 1}', 'pos' if key in ('e', 'a', 'Q', 'dt') else 'real')
                 try:
                     it2 = make_interp(repo)
-                    sf = build(repo, it2, final, use_ctl, obliq_on, sync)
+                    sf = build(repo, it2, final, use_ctl, obliq_on, sync, ctl_law)
                     full_init(it2, sf)
                     call(it2, sf.world, 'orbit_spin_changed', orbital_freq_changed=True, spin_freq_changed=True, eccentricity_changed=True, obliquity_changed=True)
                     ref = exposed(sf)
